@@ -273,11 +273,14 @@ def r4(ctx, facts):
     if not nexts:
         raise AnchorLost("plan iterator next() not found")
     nb = [c.bb for c in nexts]
+    # (feasible paths: the two retrying arms may share a tail that branches on a flag each arm set)
+    from ..util import dj_of
+    dj = dj_of(b, facts)
     tg = edges.get("RetryNextTarget")
-    reach = b.reachable_from(tg, removed_nodes=nb) if tg is not None else {send}
+    reach = dj.feasible_reach_edge(sw, tg, removed_nodes=nb) if tg is not None else {send}
     r.instance("next-target-advances-plan", send not in reach, "RetryNextTarget must advance the plan before re-sending", span)
     tg = edges.get("RetrySameTarget")
-    reach = b.reachable_from(tg, removed_nodes=nb) if tg is not None else set()
+    reach = dj.feasible_reach_edge(sw, tg, removed_nodes=nb) if tg is not None else set()
     r.instance("same-target-keeps-target", send in reach, "RetrySameTarget re-sends without advancing the plan", span)
     failed_pick(r, facts)
     # both retry arms count the retry
